@@ -21,7 +21,9 @@ code through the stream, listed in known_findings.d/C03.json):
   * the same two routes for an internal path that is only a name prefix inside a directory.
 The positive theorem therefore carries hypotheses that exclude exactly these classes.  Outside the
 model: regular expressions beyond literals, `if` conditions, placeholders other than {path},
-X-Accel-Redirect, templates/markdown/fastcgi/websocket, htpasswd; the OS file system is a table.
+X-Accel-Redirect, markdown/fastcgi/websocket, text/template itself; the OS file system is a table.
+The `templates` middleware and its pooled buffer over SEQUENCES of requests: section TplPool below
+(one more failing class there: a public page that includes a protected file).
 -/
 namespace Casket.Props.C03
 open Casket.Path Casket.FS Casket.FileServe Casket.Chain Casket.ChainSpec Casket.FileServeProofs Casket.ChainProofs
